@@ -40,6 +40,9 @@ type thread struct {
 	signalled bool
 	// channel polling
 	seenEpoch int64
+	// tag is harness data attached to the thread (inherited by the threads it
+	// spawns), e.g. the simulated process it belongs to.
+	tag any
 }
 
 // Point is one recorded choice point.
@@ -166,8 +169,20 @@ func Go(fn func()) {
 	s.point(me, &Op{Kind: "spawn"})
 	t := s.newThread()
 	t.pending = &Op{Kind: "start"}
+	t.tag = me.tag
 	go s.threadMain(t, fn)
 }
+
+// Tag returns the tag of the running thread.
+func (s *S) Tag() any {
+	if s.running == nil {
+		return nil
+	}
+	return s.running.tag
+}
+
+// SetTag tags the running thread; threads spawned later inherit the tag.
+func (s *S) SetTag(v any) { s.running.tag = v }
 
 func (s *S) objID(o any) int {
 	if o == nil {
